@@ -731,7 +731,7 @@ impl<'a> World<'a> {
         Fate { copies }
     }
 
-    fn route(&mut self, call: u64, src: usize, dst_addr: SocketAddr, bytes: Vec<u8>, oracles: &mut [Box<dyn Oracle>]) {
+    fn route(&mut self, call: u64, src: usize, dst_addr: SocketAddr, bytes: Vec<u8>, failed: bool, oracles: &mut [Box<dyn Oracle>]) {
         self.stats.datagrams += 1;
         let dst = self.addrs.iter().position(|a| *a == dst_addr);
         let bytes = Rc::new(bytes);
@@ -754,7 +754,12 @@ impl<'a> World<'a> {
         // drawn faults no longer apply (this keeps minimised plans, whose datagram ordinals have
         // shifted, inside the scenario's assumptions)
         let fair = self.healed && self.plan.param("fair_after_heal", 1.0) != 0.0;
-        let fate = if fair {
+        // a send call that was made to fail: to the endpoint's peer, and to every oracle, a
+        // datagram that was sent and lost (the endpoint also saw an error, which it may ignore)
+        let fate = if failed {
+            self.stats.sock_errors += 1;
+            Fate::dropped()
+        } else if fair {
             Fate::deliver(self.rule_for(src, dst_ep).latency_us)
         } else if let Some(f) = self.plan.fates.get(&lname).and_then(|m| m.get(&ord)) {
             f.clone()
@@ -765,7 +770,7 @@ impl<'a> World<'a> {
         };
         let mut fate = fate;
         // a middlebox that rewrites frames is a fault like any other: none after the heal
-        if let Some(mut adv) = if fair { None } else { self.adversary.take() } {
+        if let Some(mut adv) = if fair || failed { None } else { self.adversary.take() } {
             if let Some(newbytes) = adv.rewrite(src, dst_ep, &bytes, &fate, self.plan) {
                 if let Some(c) = fate.copies.iter_mut().find(|c| c.flips.is_empty() && c.trunc.is_none() && c.replace.is_none()) {
                     c.replace = Some(newbytes);
@@ -822,7 +827,7 @@ impl<'a> World<'a> {
             self.seq += 1;
         }
         let w = WireRec { call, t_ns: self.now_ns, local_ms, local_ns, src, dst: Some(dst_ep), dst_addr, bytes, ord, fate, arrivals_ns };
-        if let Some(mut adv) = self.adversary.take() {
+        if let Some(mut adv) = if failed { None } else { self.adversary.take() } {
             let mut out = Vec::new();
             adv.on_wire(&w, self.now_ns / 1000, self.plan, &mut out);
             self.adversary = Some(adv);
@@ -964,10 +969,10 @@ impl<'a> World<'a> {
         }
         for o in outgoing {
             let src = self.addrs.iter().position(|a| *a == o.src).unwrap_or(ep);
-            self.route(call, src, o.dst, o.bytes, oracles);
+            self.route(call, src, o.dst, o.bytes, o.failed, oracles);
         }
         for (dst, bytes) in std::mem::take(&mut out.frames) {
-            self.route(call, ep, dst, bytes, oracles);
+            self.route(call, ep, dst, bytes, false, oracles);
         }
         let mut echoes: Vec<(Option<SocketAddr>, Rc<Vec<u8>>)> = Vec::new();
         for (peer_addr, ev) in std::mem::take(&mut out.events) {
@@ -1323,7 +1328,6 @@ impl<'a> World<'a> {
                 self.deliver(d, true, oracles);
             }
             Op::SockErr { ep, recv, send } => {
-                self.stats.sock_errors += (*recv + *send) as u64;
                 uv::net::sim::set_recv_errors(self.eps[*ep].addr, *recv);
                 uv::net::sim::set_send_errors(self.eps[*ep].addr, *send);
                 self.harness_op(op, false, oracles);
@@ -1372,6 +1376,13 @@ impl<'a> World<'a> {
         if let Op::Mark { name } = op {
             if name == "heal" {
                 self.healed = true;
+                // the fair phase has no failing socket calls and no undersized buffers either
+                for e in self.eps.iter_mut() {
+                    e.inbox_cap = usize::MAX;
+                    uv::net::sim::set_recv_errors(e.addr, 0);
+                    uv::net::sim::set_send_errors(e.addr, 0);
+                    uv::net::sim::set_inbox_capacity(e.addr, usize::MAX);
+                }
             }
         }
         self.exec_op(op, oracles);
@@ -1481,6 +1492,7 @@ impl<'a> World<'a> {
             self.emit(Rec::End { t_ns: self.now_ns }, oracles);
         }
         self.stats.sim_us = self.now_ns / 1000;
+        self.stats.sock_errors += uv::net::sim::recv_failures();
 
         // teardown: drop every endpoint object inside its own accounting domain
         let materialised = if self.opts.materialise { Some(self.materialised_plan()) } else { None };
